@@ -107,7 +107,7 @@ Definition agrees (c : c09case) : bool := Nat.eqb (verdict c) 0.
 Record fstep := mkFS {
   fs_kernel : nat;          (* index in the kernel list *)
   fs_moved : bool;          (* the transition info reports a move (always true for KAlways kernels) *)
-  fs_changed : list nat     (* stored nodes (Value, Calc, Dist) whose stored bits differ before/after *)
+  fs_changed : list nat     (* stored nodes (Value, Calc, Dist) whose stored value differs before/after (beyond a few ulps) *)
 }.
 Record fcase := mkF {
   f_g : zgraph;             (* shape only: kinds and inputs; function symbols are not used *)
